@@ -47,6 +47,8 @@ import dateparser, pytz
 jobs = json.load(sys.stdin)
 out = []
 for s, st, fmts in jobs:
+    if isinstance(st.get("RELATIVE_BASE"), str):
+        st["RELATIVE_BASE"] = datetime.datetime.fromisoformat(st["RELATIVE_BASE"])
     try:
         r = dateparser.parse(s, languages=["en"], settings=st, date_formats=fmts)
         out.append(None if r is None else [r.replace(tzinfo=None).isoformat(), None if r.tzinfo is None else r.utcoffset().total_seconds()])
@@ -213,6 +215,26 @@ def run(ctx):
                 cases.append({"s": ph, "langs": ["en"], "settings": st, "stratum": "relative-clock" + ("/across-dst" if now_a.utcoffset() != x0.utcoffset() else ""),
                               "expect": expect_str(x.replace(tzinfo=None), off=str(int(x.utcoffset().total_seconds())) if aware else "naive", period="day")})
 
+    # a relative phrase with a clock time: the day moves on the wall clock, the clock time is set, and the result is that local time of the zone
+    # (its offset is the one in force *then*, which differs from the reference's across a DST change)
+    for A, w in [("America/New_York", D(2020, 3, 9, 1, 0)), ("America/New_York", D(2020, 3, 8, 12, 0)), ("Europe/Paris", D(2020, 10, 26, 1, 30)), ("Europe/Paris", D(2020, 3, 29, 12, 0)),
+                 ("Europe/Paris", D(2020, 6, 10, 9, 0)), ("Australia/Lord_Howe", D(2022, 4, 3, 8, 15))]:
+        for ph, days, hh, mm in [("1 day ago 14:00", -1, 14, 0), ("yesterday 14:00", -1, 14, 0), ("tomorrow at 03:30", 1, 3, 30), ("yesterday at 00:15", -1, 0, 15), ("2 days ago 23:45", -2, 23, 45),
+                                 ("in 1 day 12:00", 1, 12, 0)]:
+            for B, aware in ((None, True), ("UTC", False), ("UTC", True)):
+                w2 = (w + dt.timedelta(days=days)).replace(hour=hh, minute=mm, second=0, microsecond=0)
+                try:
+                    x0 = localize(tz_of(A), w2)
+                    now_a = localize(tz_of(A), w)
+                except Exception:  # noqa
+                    continue
+                x = x0.astimezone(tz_of(B)) if B else x0
+                st = {"TIMEZONE": A, "RELATIVE_BASE": w, "RETURN_AS_TIMEZONE_AWARE": aware}
+                if B:
+                    st["TO_TIMEZONE"] = B
+                cases.append({"s": ph, "langs": ["en"], "settings": st, "stratum": "relative+clock-time" + ("/across-dst" if now_a.utcoffset() != x0.utcoffset() else ""),
+                              "expect": expect_str(x.replace(tzinfo=None), off=str(int(x.utcoffset().total_seconds())) if aware else "naive", period="day")})
+
     # every library abbreviation as TIMEZONE: the string is interpreted at the offset the library's table lists for it (C11's offset), in
     # summer and in winter alike
     for nm in sorted(abbr):
@@ -260,6 +282,25 @@ def run(ctx):
             for s, fmts in ((w.strftime("%Y-%m-%d %H:%M"), None), (w.strftime("%d/%m/%Y %H:%M"), ["%d/%m/%Y %H:%M"])):
                 jobs.append((s, st, fmts))
                 exp.append([x.replace(tzinfo=None).isoformat(), x.utcoffset().total_seconds() if aware else None])
+        # relative phrases from a reference in the process zone, around its DST changes: clock units are elapsed time, calendar units move the
+        # wall clock (the process zone is a zoneinfo zone, not a pytz one: a different code path from an IANA TIMEZONE)
+        if TZ in ("America/New_York", "Australia/Lord_Howe"):
+            zt = pytz.timezone(TZ)
+            rb = [D(2020, 3, 8, 3, 30), D(2020, 3, 8, 12, 0), D(2020, 11, 1, 12, 0), D(2020, 6, 10, 9, 0)] if TZ == "America/New_York" else [D(2022, 4, 3, 8, 15), D(2022, 10, 2, 9, 0)]
+            for w in rb:
+                for ph, cal, secs in (("2 hours ago", 0, -7200), ("in 3 hours", 0, 10800), ("12 hours ago", 0, -43200), ("1 day ago", -1, 0), ("in 1 day", 1, 0), ("in 1 day 2 hours", 1, 7200)):
+                    for B, aware in (("UTC", True), (None, False)):
+                        try:
+                            x = zt.normalize(zt.localize(w + dt.timedelta(days=cal), is_dst=None) + dt.timedelta(seconds=secs)) if cal else zt.normalize(zt.localize(w, is_dst=None) + dt.timedelta(seconds=secs))
+                        except Exception:  # noqa
+                            continue
+                        if B:
+                            x = x.astimezone(tz_of(B))
+                        st = {"TIMEZONE": "local", "RETURN_AS_TIMEZONE_AWARE": aware, "RELATIVE_BASE": w.isoformat()}
+                        if B:
+                            st["TO_TIMEZONE"] = B
+                        jobs.append((ph, st, None))
+                        exp.append([x.replace(tzinfo=None).isoformat(), x.utcoffset().total_seconds() if aware else None])
         p = subprocess.run([sys.executable, "-c", LOCAL_PROBE, REPO], input=json.dumps(jobs).encode(), stdout=subprocess.PIPE, stderr=subprocess.PIPE,
                            env=dict(os.environ, TZ=TZ), timeout=600)
         try:
